@@ -9,6 +9,7 @@ explicit whitespace `Text` and comments are items. It is what tree-sitter delive
                   | `(` items closeGap `)`            (comments and exactly one expression)
                   | expr (gap comment)* gap expr      (function application)
                   | (`with` | `assert`) (gap comment)* gap expr (gap comment)* gap `;` (gap comment)* gap expr
+                  | expr (gap comment)* gap `.` gap name (`.` name)*      (select, no `or` default)
     list items    : (gap comment | gap expr)*
     set items     : (gap comment | gap binding)*
     binding       : name (gap comment)* gap `=` (gap comment)* gap expr (gap comment)* gap `;`
@@ -46,6 +47,9 @@ inductive Cst where
   /-- `with` c1 g1 environment c2 g2 `;` c3 g3 body — `with_expression` (`isWith`), or
       `assert` c1 g1 condition c2 g2 `;` c3 g3 body — `assert_expression` -/
   | kw (isWith : Bool) (c1 : GC) (g1 : Text) (head : Cst) (c2 : GC) (g2 : Text) (c3 : GC) (g3 : Text) (body : Cst)
+  /-- expression c1 g1 `.` gd a₁ `.` a₂ … — `select_expression` without `or` default; the attrpath holds
+      no whitespace (`attrs`: its segments, separated by `.`) -/
+  | sel (e : Cst) (c1 : GC) (g1 : Text) (gd : Text) (attrs : List Text)
 inductive Items where
   | nil
   /-- gap, comment token -/
@@ -66,6 +70,12 @@ structure File where
 
 def flattenGC (cs : GC) : Text := cs.flatMap fun p => p.1 ++ p.2
 
+/-- `a₁.a₂.….aₙ` -/
+def attrText : List Text → Text
+  | [] => []
+  | [a] => a
+  | a :: rest => a ++ '.' :: attrText rest
+
 /-- the keyword token of a `kw` node -/
 def kwText (isWith : Bool) : Text := if isWith then ['w', 'i', 't', 'h'] else ['a', 's', 's', 'e', 'r', 't']
 
@@ -78,6 +88,7 @@ def Cst.flatten : Cst → Text
   | .app f cs g a => f.flatten ++ flattenGC cs ++ g ++ a.flatten
   | .kw w c1 g1 h c2 g2 c3 g3 b =>
     kwText w ++ flattenGC c1 ++ g1 ++ h.flatten ++ flattenGC c2 ++ g2 ++ ';' :: flattenGC c3 ++ g3 ++ b.flatten
+  | .sel e c1 g1 gd attrs => e.flatten ++ flattenGC c1 ++ g1 ++ '.' :: gd ++ attrText attrs
 def Items.flatten : Items → Text
   | .nil => []
   | .cmt g t rest => g ++ t ++ rest.flatten
@@ -114,6 +125,11 @@ deriving DecidableEq, Repr
 
 def lexGC (cs : GC) : List Lex := cs.map fun p => .cmt p.2
 
+/-- the tokens of `.a₁.a₂.….aₙ` -/
+def attrLex : List Text → List Lex
+  | [] => []
+  | a :: rest => .tok ['.'] :: .tok a :: attrLex rest
+
 mutual
 def Cst.lex : Cst → List Lex
   | .leaf _ t => [.tok t]
@@ -122,6 +138,7 @@ def Cst.lex : Cst → List Lex
   | .paren its _ => .tok ['('] :: its.lex ++ [.tok [')']]
   | .app f cs _ a => f.lex ++ lexGC cs ++ a.lex
   | .kw w c1 _ h c2 _ c3 _ b => .tok (kwText w) :: lexGC c1 ++ h.lex ++ lexGC c2 ++ .tok [';'] :: lexGC c3 ++ b.lex
+  | .sel e c1 _ _ attrs => e.lex ++ lexGC c1 ++ attrLex attrs
 def Items.lex : Items → List Lex
   | .nil => []
   | .cmt _ t rest => .cmt t :: rest.lex
@@ -215,6 +232,11 @@ def gcOk : GC → Text → Bool
   | [p], next => isGap p.1 && isCommentTok p.2 && closedBy p.2 next false
   | p :: q :: rest, next => isGap p.1 && isCommentTok p.2 && closedBy p.2 q.1 false && gcOk (q :: rest) next
 
+/-- a segment of the attrpath of a select: one token (an identifier or a `"…"` string) on one line,
+    not `.` / `;` -/
+def attrSegOk (a : Text) : Bool :=
+  !a.isEmpty && !containsNL a && a != ['.'] && a != [';']
+
 /-- where an item sequence sits -/
 inductive Mode where
   | file | list | set | paren
@@ -245,6 +267,8 @@ def Cst.wf : Cst → Bool
   -- and tied to the implementation — `Cst.modelled` below —, but are outside the theorems' fragment.)
   | .kw _ c1 g1 h c2 g2 c3 g3 b =>
     c1.isEmpty && isGap g1 && h.wf && c2.isEmpty && isGap g2 && c3.isEmpty && isGap g3 && b.wf
+  -- select: whitespace only between the expression and `.`, and between `.` and the attrpath
+  | .sel e c1 g1 gd attrs => e.wf && c1.isEmpty && isGap g1 && isGap gd && !attrs.isEmpty && attrs.all attrSegOk
 /-- `closeGap`: the whitespace after the last item (in front of the closing token / the end of the
     file) -/
 def Items.wf : Items → Mode → Text → Bool
@@ -270,6 +294,8 @@ def Cst.modelled : Cst → Bool
   | .app f cs g a => f.modelled && gcOk cs g && isGap g && a.modelled
   | .kw _ c1 g1 h c2 g2 c3 g3 b =>
     gcOk c1 g1 && isGap g1 && h.modelled && gcOk c2 g2 && isGap g2 && gcOk c3 g3 && isGap g3 && b.modelled
+  | .sel e c1 g1 gd attrs =>
+    e.modelled && gcOk c1 g1 && isGap g1 && isGap gd && !attrs.isEmpty && attrs.all attrSegOk
 def Items.modelled : Items → Mode → Text → Bool
   | .nil, _, _ => true
   | .cmt g t rest, m, cg =>
